@@ -284,6 +284,7 @@ func runC19(s *sess) map[string]any {
 			cancel()
 			g.flush(s, round)
 			s.hang("Ready/GetX509SVID returning (Run was started and its initial fetch finishes)", round)
+			cancel()
 			break
 		}
 
@@ -298,6 +299,7 @@ func runC19(s *sess) map[string]any {
 				s.hang("Run returning after a failed initial fetch", round)
 			}
 			if !s.more() {
+				cancel()
 				break
 			}
 			if err := sp.Ready(context.Background()); err != nil {
@@ -326,6 +328,7 @@ func runC19(s *sess) map[string]any {
 				}
 				s.bad("spiffe/most-recent-good-svid-not-served", fmt.Sprintf("the issuer was called %d times, the most recent good certificate has serial %d, GetX509SVID serves %s (err %v) after %s", calls.Load(), lastGood.Load(), got, err, hangTimeout), round)
 				s.stopped.Store(true)
+				cancel()
 				break
 			}
 			if withDir {
@@ -354,6 +357,7 @@ func runC19(s *sess) map[string]any {
 				s.hang("Run returning after its context ended", round)
 			}
 			if !s.more() {
+				cancel()
 				break
 			}
 		}
@@ -361,6 +365,7 @@ func runC19(s *sess) map[string]any {
 		close(stopReader)
 		if !fr.Wait() {
 			s.hang("the test's file reader stopping", round)
+			cancel()
 			break
 		}
 		fr.flush(s, round)
